@@ -218,6 +218,9 @@ struct Peer {
     sock_ack: Option<u16>,
     sock_wnd: u32,
     last_ack: u16,
+    /// the furthest cumulative acknowledgement the peer has ever put on the wire (an old acknowledgement that
+    /// arrives again — `Ack { back }` — does not take back what the peer holds)
+    ack_floor: Option<u16>,
     last_wnd: u32,
     last_pure_ack: Option<RefPacket>,
     syn: Option<RefPacket>,
@@ -279,6 +282,7 @@ impl Peer {
     }
 
     fn send(&mut self, p: RefPacket) {
+        if p.ptype != refparse::ST_SYN && p.ptype != refparse::ST_RESET && self.ack_floor.is_none_or(|f| { let d = dist(p.ack, f); d > 0 && d < 20_000 }) { self.ack_floor = Some(p.ack); }
         let bytes = refparse::encode(&p);
         self.send_raw(bytes);
     }
@@ -330,6 +334,7 @@ pub fn run(case: &SpCase, trace: bool) -> SpResult {
             // until the socket says otherwise its window is its configured receive buffer
             sock_wnd: case.sock.rx_buf,
             last_ack: 0,
+            ack_floor: None,
             last_wnd: case.peer_wnd,
             last_pure_ack: None,
             syn: None,
@@ -696,8 +701,11 @@ pub fn run(case: &SpCase, trace: bool) -> SpResult {
                     PeerOp::SackHeld { adv, skip, count, wnd } => {
                         let mut p = peer.base(refparse::ST_STATE);
                         let high = peer.ack_base(expected_sock_first);
-                        let room = dist(high, peer.last_ack).max(0);
-                        let new_ack = peer.last_ack.wrapping_add((*adv as i32).min((room - 2).max(0)) as u16);
+                        // an honest receiver's cumulative position: the furthest it has ever acknowledged (within what
+                        // the socket has sent), not an old acknowledgement that was repeated meanwhile
+                        let base = match peer.ack_floor { Some(f) if dist(f, peer.last_ack) > 0 && dist(high, f) >= 0 => f, _ => peer.last_ack };
+                        let room = dist(high, base).max(0);
+                        let new_ack = base.wrapping_add((*adv as i32).min((room - 2).max(0)) as u16);
                         let avail = dist(high, new_ack) - 1; // packets new_ack+2 ..= high
                         p.ack = new_ack;
                         p.wnd = *wnd;
